@@ -58,7 +58,7 @@ func c04Token(o core.Object, err error) int {
 func init() {
 	props["C04"] = func(r *Run, rng *RNG) {
 		thorough := r.Tier == "thorough"
-		r.Rule = "revision histories of 1..4 revisions over 1..8 object numbers: each revision puts (as dictionary, integer, stream with direct length, stream with an indirect length object; stream bodies of 20..9000 bytes) or deletes a random subset; per revision a classic cross-reference table or a cross-reference stream (plain or Flate, widths [1 4 2], [1 3 1], [2 8 2] or [0 4 2] where no entry needs a type), in stream revisions non-stream objects packed into one or two object streams; lookups: 10..16 operations drawn from all object numbers incl. never-defined ones, the length objects, the object streams and cross-reference streams, with repeats and cache clears, each history also with the reversed order of lookups, and with every object looked up once in ascending and once in descending order. non-trivial = at least 2 revisions"
+		r.Rule = "revision histories of 1..4 revisions over 1..8 object numbers: each revision puts (as dictionary, integer, stream with direct length, stream with an indirect length object; stream bodies of 20..9000 bytes) or deletes a random subset; per revision a classic cross-reference table, a hybrid table with /XRefStm, or a cross-reference stream (plain or Flate, widths [1 4 2], [1 3 1], [2 8 2] or [0 4 2] where no entry needs a type), in stream revisions non-stream objects packed into one or two object streams; lookups: 10..16 operations drawn from all object numbers incl. never-defined ones, the length objects, the object streams and cross-reference streams, with repeats and cache clears, each history also with the reversed order of lookups, and with every object looked up once in ascending and once in descending order. non-trivial = at least 2 revisions"
 		n := 150
 		if thorough {
 			n = 4000
@@ -74,7 +74,17 @@ func init() {
 			for ri := 0; ri < nrev; ri++ {
 				rev := pdfRevision{packed: map[int][]pdfObj{}}
 				rev.xrefStm = rng.Bool()
+				// a table revision may be hybrid: its packed objects are listed by a cross-reference stream named /XRefStm
+				rev.hybrid = !rev.xrefStm && rng.Chance(1, 3)
 				rev.xrefNum = 90 + ri
+				switch {
+				case rev.hybrid:
+					r.Dist["revision:hybrid"]++
+				case rev.xrefStm:
+					r.Dist["revision:stream"]++
+				default:
+					r.Dist["revision:table"]++
+				}
 				rev.flate = rng.Bool()
 				needsType := false
 				for num := 1; num <= nobj; num++ {
@@ -128,7 +138,7 @@ func init() {
 						}
 					}
 					if body != "" {
-						if rev.xrefStm && p.kind <= 1 && rng.Chance(2, 3) {
+						if (rev.xrefStm || rev.hybrid) && p.kind <= 1 && rng.Chance(2, 3) {
 							p.packed = true
 							sn := 60 + 2*ri + rng.Intn(2)
 							rev.packed[sn] = append(rev.packed[sn], pdfObj{num, body})
@@ -142,6 +152,10 @@ func init() {
 				}
 				if ri == 0 {
 					needsType = true // the free head entry
+				}
+				if rev.hybrid {
+					rev.widths = [][3]int{{1, 4, 2}, {1, 3, 1}, {2, 8, 2}}[rng.Intn(3)]
+					newest[rev.xrefNum] = -4
 				}
 				if rev.xrefStm {
 					ws := [][3]int{{1, 4, 2}, {1, 3, 1}, {2, 8, 2}}
